@@ -337,6 +337,9 @@ func genOps(rt *rapid.T) []Op {
 func TestMachines(t *testing.T) {
 	pbt.Check(t, 400, 3200, func(rt *rapid.T) {
 		c := Case{G0: gen.Graph(rt, 6, 12), G1: genSized(rt), Ops: genOps(rt)}
+		if rapid.IntRange(0, 7).Draw(rt, "bigRow") == 0 {
+			c.BigRow = rapid.SampledFrom([]int{66000, 140000, 1100000}).Draw(rt, "bigRowLen")
+		}
 		pbt.Current(rt, c)
 		if pbt.WantSample(rt) {
 			pbt.Sample(rt, map[string]interface{}{"g1": c.G1, "ops": opsText(c.Ops)})
